@@ -12,6 +12,7 @@ THEOREMS = [
     "GitAi.Routing.routing_exact",
     "GitAi.Routing.routing_orphan",
     "GitAi.Routing.too_long_is_orphan",
+    "GitAi.Routing.routing_contains_path_partial",
     "GitAi.Routing.routing_answer_is_root",
     "GitAi.Routing.group_assignment",
     "GitAi.Routing.orphan_in_no_group",
@@ -113,7 +114,7 @@ def run(tier, seed):
     # ---- 5. end-to-end fuzz
     presets = [a["name"] for a in extraction["arms"]] if extraction else U.DEFAULT_PRESETS
     if ok2:
-        per = 16 if tier == "quick" else 500
+        per = 16 if tier == "quick" else 300
         U.fuzz(res, seed, presets, per, tier, corpus_file=os.path.join(C.VERIF, "corpus", "C20", "e2e.jsonl"))
 
     # ---- 6. a broken tie without a failing input yet: search harder on the implementation
